@@ -4,11 +4,13 @@ Python side of the property (work package "ref"): generators (lib/scheme_gen.py)
 independent reference interpreter written from R7RS used as the specification oracle
 (lib/scheme_ref.py), the syntactic predicates of the recorded defect classes
 (lib/scheme_oracle.py).  The theorems are in coq/Props/C01.v (integrator)."""
+import os
 import common as C
 import scheme_ref as R
 import scheme_gen as G
 import scheme_oracle as O
 
+os.environ.setdefault("MW_IMPL_CASE_BUDGET", "0.25")   # sessions are programs: bound a hanging implementation
 PID = "C01"
 # the parser's number-literal decoder goes through Flocq's binary64 (see C11)
 ALLOWED_AXIOMS = ["Classical_Prop.classic", "ClassicalDedekindReals.sig_forall_dec",
@@ -126,8 +128,9 @@ def generate(rng, tier):
     cases = _filter_by_reference(main, meta, "main_sessions")
     cases += _filter_by_reference(hyg, meta, "hygiene_stream_sessions")
     cases += _filter_by_reference(core, meta, "core_exhaustive_sessions")
+    sdist = G.Dist()
     for c in cases[:3000]:
-        G.source_stats(G.decode(c), dist)
+        G.source_stats(G.decode(c), sdist)
     # wider vocabulary: implementation vs oracle only (the model answers PANIC for these builtins)
     wdist = G.Dist()
     wide = _filter_by_reference([G.c01_session(rng, wdist, wide=True) for _ in range(n_wide)], meta, "wide_vocab_sessions")
@@ -147,7 +150,8 @@ def generate(rng, tier):
                     meta["wide_known_class"] = meta.get("wide_known_class", 0) + 1
         meta["wide_vocab_failures_outside_known_classes"] = bad
     meta["exhaustive"] = False
-    meta["measured_on_first_3000"] = dict(sorted(dist.items()))
+    meta["generator_choices_all_sessions"] = dict(sorted(dist.items()))
+    meta["source_measured_on_first_3000_sessions"] = dict(sorted(sdist.items()))
     return cases, meta
 
 
